@@ -30,6 +30,16 @@ from .passes import (
 ElaboratableType = TypeVar("ElaboratableType", bound=Elaboratables)
 
 
+class ConnTypesRepeat(ConnTypes):
+    """Post-flattening repeat of `ConnTypes`.
+    A separate class so that it keeps its own class-level module cache:
+    sharing `ConnTypes`'s would mark every module as already done, and skip the repeat."""
+
+
+class OrphanageRepeat(Orphanage):
+    """Post-flattening repeat of `Orphanage`, with its own class-level module cache."""
+
+
 @datatype
 class Elaborator:
     """
@@ -57,8 +67,8 @@ class Elaborator:
                 #
                 # A couple repeats
                 #
-                ConnTypes,
-                Orphanage,
+                ConnTypesRepeat,
+                OrphanageRepeat,
                 #
                 # And final module-marking
                 #
